@@ -519,6 +519,9 @@ func (e *bnEnv) exec(in bnStepIn) bnStepOut {
 			for e.readOne(s, 0) == 1 {
 			}
 		}
+	case "StopCall", "Note":
+		// labels of free-running traces that have no counterpart when a
+		// saved trace is re-executed sequentially
 	default:
 		panic("unknown op " + a.Op)
 	}
